@@ -686,7 +686,7 @@ def dense_table_class(data: bytes) -> bool:
 # ==========================================================================
 def check_C04(tier: str, seed: int) -> int:
     v = Verdict("C04", tier, seed, "proof")
-    ob = vplib.check_obligations("C04", expected=["C04_total", "C04_no_panic"])
+    ob = vplib.check_obligations("C04", expected=["C04_total", "C04_no_panic", "C04_parse_total", "C04_validate_total", "C04_example"])
     vplib.build_harness(["dev", "relchk"])
     w = Work("C04")
     try:
@@ -1587,7 +1587,7 @@ def check_C08(tier, seed):
 # ==========================================================================
 def check_C05(tier: str, seed: int) -> int:
     v = Verdict("C05", tier, seed, "proof")
-    ob = vplib.check_obligations("C05", expected=["C05_valid", "C05_frame_image", "C05_cel_image", "C05_tile_lookup_total", "C05_walk"], extra_files=["C05_C17"])
+    ob = vplib.check_obligations("C05", expected=["C05_valid", "C05_valid_bytes", "C05_layers", "C05_cels", "C05_struct", "C05_frame_image", "C05_cel_image", "C05_frame_image_total", "C05_cel_image_total", "C05_tilemap", "C05_tile_lookup_total", "C05_tile_image", "C05_tileset_image", "C05_walk", "C05_walk_total"], extra_files=["C05_C17"])
     vplib.build_harness(["dev", "relchk"])
     w = Work("C05")
     try:
@@ -2064,7 +2064,7 @@ def direct_C09(s, data, blk) -> List[str]:
 
 def check_C09(tier: str, seed: int) -> int:
     v = Verdict("C09", tier, seed, "proof")
-    ob = vplib.check_obligations("C09", expected=["C09_parent", "C09_parent_lt", "C09_visible", "C09_hidden"], extra_files=["C09_e2e"] if os.path.exists(os.path.join(vplib.COQ, "Props", "C09_e2e.v")) else ())
+    ob = vplib.check_obligations("C09", expected=["C09_parent", "C09_parent_lt", "C09_total", "C09_parents_ok", "C09_layer_parent", "C09_ancestors", "C09_visible", "C09_hidden", "C09_hidden_image", "C09_hidden_generic", "C09_hidden_generic_rows", "C09_frame_row_bridge"], extra_files=["C09_e2e"] if os.path.exists(os.path.join(vplib.COQ, "Props", "C09_e2e.v")) else ())
     vplib.build_harness(["release", "dev"])
     w = Work("C09")
     try:
@@ -2978,7 +2978,7 @@ def c10_expected(owner, nlayers, nslices, ntags) -> List[List[int]]:
 
 def check_C10(tier: str, seed: int) -> int:
     v = Verdict("C10", tier, seed, "proof")
-    ob = vplib.check_obligations("C10", expected=["C10_context_invariant", "C10_attach", "C10_frame", "C10_flags", "C10_load"])
+    ob = vplib.check_obligations("C10", expected=["C10_step", "C10_context_invariant", "C10_ignorable", "C10_attach", "C10_attach_layer_file_order", "C10_attach_tags_file_order", "C10_attach_layer", "C10_attach_cel", "C10_attach_slice", "C10_attach_tag", "C10_attach_sprite", "C10_no_context", "C10_frame", "C10_frame_rest", "C10_flags", "C10_flags_inv", "C10_assemble", "C10_load"])
     vplib.build_harness(["release"])
     w = Work("C10")
     try:
@@ -3811,7 +3811,7 @@ def c12_inputs(rng: random.Random, tier: str) -> List[Tuple[str, bytes]]:
 
 def check_C12(tier: str, seed: int) -> int:
     v = Verdict("C12", tier, seed, "proof")
-    ob = vplib.check_obligations("C12", expected=["C12_buffered_le_input", "C12_unzip_exact", "C12_unzip_bounded", "C12_bound_partial"])
+    ob = vplib.check_obligations("C12", expected=["C12_buffered_le_input", "C12_buffered_consumed", "C12_unzip_exact", "C12_unzip_bounded", "C12_take_bytes_bounded", "C12_bound_partial", "C12_consumed_framing", "C12_frames_size_chunks", "C12_bound_framing", "C12_bound_loaded", "C12_layer_chunks_long"])
     vplib.build_harness(["release"])
     w = Work("C12")
     try:
